@@ -33,6 +33,7 @@ def render {α} (f : α → String) : Out α → String
   | .ok a => "ok " ++ f a
   | .err k => "err " ++ k.name
   | .panic => "panic"
+@[simp] theorem pure_eq_ok {α} (a : α) : (pure a : Out α) = Out.ok a := rfl
 @[simp] theorem bind_ok {α β} (a : α) (f : α → Out β) : (Out.ok a >>= f) = f a := rfl
 @[simp] theorem bind_err {α β} (k : ErrKind) (f : α → Out β) : (Out.err k >>= f) = Out.err k := rfl
 @[simp] theorem bind_panic {α β} (f : α → Out β) : (Out.panic >>= f) = Out.panic := rfl
